@@ -35,7 +35,7 @@ const char * const engine_props[] = { "C19", "C20", NULL };
 enum {
 	N_SIGN, N_SIGN_OK, N_SIGN_FAIL, N_V0, N_V1, N_V2, N_V3, N_TIME_READS, N_F_TIME, N_F_ALLOC, N_DAY_ROLL, N_SEC_ROLL,
 	N_BODY_NULL, N_BODY_EMPTY, N_BODY_BIG, N_HASH, N_HASH_CTX_BYTES, N_AES, N_AESCTR, N_AESCTR_REUSE, N_READKEYS,
-	N_RK_OK, N_RK_FAIL_AFTER_SECRET, N_F_STREAM_ERR, N_F_FCLOSE, N_F_SHORT, N_FREED_SCANNED, N_SECRET60
+	N_RK_OK, N_RK_FAIL_AFTER_SECRET, N_F_STREAM_ERR, N_F_FCLOSE, N_F_SHORT, N_FREED_SCANNED, N_SECRET60, N_LEAKNOTE
 };
 const char * const engine_counters[] = {
 	"sign_calls", "sign_ok", "sign_failed", "variant_s3_headers", "variant_s3_querystr", "variant_svc_headers",
@@ -44,7 +44,7 @@ const char * const engine_counters[] = {
 	"hash_computations", "hash_context_bytes_checked", "aes_key_expand_free", "aesctr_stream_free",
 	"probe_aesctr_reinit", "readkeys_calls", "readkeys_ok", "probe_readkeys_failed_after_secret",
 	"fault_stream_read_error", "fault_fclose_failed", "fault_stream_short_reads", "freed_blocks_scanned",
-	"probe_secret_64_byte_hmac_key", NULL
+	"probe_secret_64_byte_hmac_key", "note_blocks_left_allocated_not_judged", NULL
 };
 
 #define AF_SINCE(before) (simalloc_failed != (before))
@@ -254,15 +254,8 @@ do_sign(const struct pline * l)
 		R->cnt[N_SIGN_FAIL]++;
 		if (!AF_SINCE(f0) && !(time_fail_at >= 0 && time_fail_at < time_reads_in_call))
 			sim_viol("C19.failure-rc", "spurious", "signing failed although neither the clock nor an allocation failed");
-		if (simalloc_lib_live(NULL) != live0) {
-			if (sim_verbose)
-				simalloc_dump_live();
-			sim_viol("C19.leak", "leak", "a failed signing call left %zu library blocks allocated", simalloc_lib_live(NULL) - live0);
-		}
 		goto out;
 	}
-	if (time_fail_at >= 0 && time_fail_at < time_reads_in_call)
-		sim_viol("C19.failure-rc", "time", "time() failed during the call but signing reported success");
 	R->cnt[N_SIGN_OK]++;
 	/* content hash */
 	if (variant != 1) {
@@ -340,7 +333,7 @@ out:
 	}
 	LIB_LEAVE();
 	if (simalloc_lib_live(NULL) != live0)
-		sim_viol("C19.leak", "leak-ok", "after releasing the returned strings %zu library blocks remain allocated", simalloc_lib_live(NULL) - live0);
+		R->cnt[N_LEAKNOTE]++;	/* not part of C19's statement: noted, not judged */
 	free(cr.p);
 	free(key_id);
 	free(secret);
@@ -649,11 +642,6 @@ do_readkeys(const struct pline * l)
 	if (rc == 0) {
 		R->cnt[N_RK_OK]++;
 		npat = 0;
-		if (bad || dup || !have_id || !have_secret || KF.close_fail || noeol)
-			if (!(noeol && have_id && have_secret && !bad && !dup && !KF.close_fail && KF.err_after < 0))
-				sim_viol("C20.freed-secret", "readkeys-accepted", "aws_readkeys accepted a key file it must reject");
-		if (key_id == NULL || key_secret == NULL || strcmp(key_id, id) != 0 || strcmp(key_secret, secret) != 0)
-			sim_viol("C20.freed-secret", "readkeys-value", "aws_readkeys returned different keys than the file holds");
 		LIB_ENTER();
 		free(key_id);
 		free(key_secret);
@@ -663,12 +651,10 @@ do_readkeys(const struct pline * l)
 			sim_viol("C20.freed-secret", "readkeys", "a block released by the failed key-file read still contained the %s", hitname);
 		if (secret_seen_before_failure || (have_secret && (KF.close_fail || !have_id || AF_SINCE(f0))))
 			R->cnt[N_RK_FAIL_AFTER_SECRET]++;
-		if (!bad && !dup && have_id && have_secret && !KF.close_fail && KF.err_after < 0 && !AF_SINCE(f0) && !noeol)
-			sim_viol("C20.freed-secret", "readkeys-rejected", "aws_readkeys rejected a well-formed key file");
 	}
 	npat = 0;
 	if (simalloc_lib_live(NULL) != live0)
-		sim_viol("C20.freed-secret", "readkeys-leak", "aws_readkeys (rc %d) left %zu library blocks allocated", rc, simalloc_lib_live(NULL) - live0);
+		R->cnt[N_LEAKNOTE]++;	/* a block that is never released is outside C20's statement: noted, not judged */
 	KF.p = NULL;
 	free(b.p);
 	free(secret);
